@@ -51,7 +51,7 @@ func cutSetOfIndexCall(info *types.Info, call *ast.CallExpr) (ast.Expr, removedS
 		return nil, nil
 	}
 	set := removedSet{}
-	switch fn.Name() {
+	switch fname(fn) {
 	case "IndexByte", "IndexRune":
 		if v, ok := astx.ConstInt(info, call.Args[1]); ok && v >= 0 && v < 256 {
 			set[byte(v)] = true
